@@ -361,14 +361,16 @@ int main(int argc, char **argv)
 
     if (!strcmp(entry, "receiver")) {
         rcv_int_c = rcv_int_cpp = -1;
-        viaC = true; { TestTestingFixture f; f.setTestFunction(receiverBody); f.runAllTests(); }
-        viaC = false; { TestTestingFixture f; f.setTestFunction(receiverBody); f.runAllTests(); }
+        size_t fc, fp;
+        viaC = true; { TestTestingFixture f; f.setTestFunction(receiverBody); f.runAllTests(); fc = f.getFailureCount(); if (fc) printf("C run:\n%s\n", f.getOutput().asCharString()); }
+        viaC = false; { TestTestingFixture f; f.setTestFunction(receiverBody); f.runAllTests(); fp = f.getFailureCount(); if (fp) printf("C++ run:\n%s\n", f.getOutput().asCharString()); }
+        printf("test failures: C %d, C++ %d\n", (int)fc, (int)fp);
         printf("scope A holds f() -> 7, the global scope is selected in between:\n"
                "  MockActualCall_c.hasReturnValue          C %d   C++ MockActualCall::hasReturnValue %d\n"
                "  MockActualCall_c.returnIntValueOrDefault C %d   C++ MockActualCall::returnIntValueOrDefault(3) %d\n"
                "  MockSupport_c(A).returnIntValueOrDefault C %d   C++ mock(\"A\").returnIntValueOrDefault(3) %d\n",
                rcv_has_c, rcv_has_cpp, rcv_od_c, rcv_od_cpp, rcv_int_c, rcv_int_cpp);
-        if (rcv_has_c != rcv_has_cpp || rcv_od_c != rcv_od_cpp || rcv_int_c != rcv_int_cpp)
+        if (fc != fp || rcv_has_c != rcv_has_cpp || rcv_od_c != rcv_od_cpp || rcv_int_c != rcv_int_cpp)
             REPRODUCED("the C entry points answer for another object than the C++ methods of the same name (one shared forwarder per name, two tables)");
         NOT_REPRODUCED("same answers");
     }
